@@ -14,7 +14,6 @@ use crate::empty_ss;
 
 use super::goal::Goal;
 use super::logic_var::*;
-use super::s_linked_list::*;
 use super::built_in_functions::*;
 use super::built_in_predicates::*;
 use super::substitution_set::*;
@@ -450,17 +449,24 @@ impl Unifiable {
                 Unifiable::SComplex(new_terms)
             },
             Unifiable::SLinkedList{term: _, next: _, count: _, tail_var: _} => {
+                // Rebuild the list node by node. Only the variables change;
+                // the shape of the list (counts, tail variable flag and the
+                // empty end node) must stay exactly as it was. In particular,
+                // the empty list [] must remain the empty list.
                 let mut this_list = self;
-                let mut new_terms = vec![];
-                let mut vbar = false;  // vertical bar |
+                let mut new_nodes = vec![];
                 while let Unifiable::SLinkedList{term: t, next: n,
                                      count: c, tail_var: tf} = this_list {
-                    new_terms.push(t.recreate_variables(recreated_vars));
-                    if c == 1 && tf { vbar = true; }
+                    new_nodes.push((t.recreate_variables(recreated_vars), c, tf));
                     this_list = *n;
-                    if this_list == Unifiable::Nil { break; }
                 }
-                return make_linked_list(vbar, new_terms);
+                let mut new_list = this_list;  // the final link (Nil)
+                while let Some((t, c, tf)) = new_nodes.pop() {
+                    new_list = Unifiable::SLinkedList{
+                                   term: Box::new(t), next: Box::new(new_list),
+                                   count: c, tail_var: tf};
+                }
+                return new_list;
             },
             Unifiable::SFunction{name, terms} => {
                 let mut new_terms: Vec<Unifiable> = vec![];
